@@ -317,23 +317,47 @@ func c14B1t8(c *Ctx) {
 				note("Decode n=%d rem=%d: count %d", n, rem, k)
 			}
 			// accept condition on the full groups: one constraint per trit, each equal to "bits 1..7 of that trit are zero"
+			// accept condition: the rejections that test trit i (one unsigned test, or `t < 0` and `t > 1`, …) together
+			// reject exactly "some bit 1..7 of trit i is set"
 			matched := map[int]bool{}
-			for _, cn := range in.Cons {
-				hit := -1
-				for i := 0; i < 8*n+rem; i++ {
-					t := src.A.Elems[i].(*bitdom.BV)
-					hi := bitdom.Zero()
-					for k := 1; k < 8; k++ {
-						hi = bitdom.Or(hi, t.Bits[k])
-					}
-					if !cn.Want && bitdom.Equal(cn.P, hi) {
-						hit = i
+			varTrit := map[int]int{}
+			for i := 0; i < 8*n+rem; i++ {
+				for _, p := range src.A.Elems[i].(*bitdom.BV).Bits {
+					for _, v := range p.Support() {
+						varTrit[v] = i
 					}
 				}
-				if hit < 0 {
-					note("Decode n=%d rem=%d: a rejection is not of the form 'trit > 1' for a single trit: %s", n, rem, short(cn.P.Format(in.Name), 120))
+			}
+			accept := map[int]bitdom.Poly{}
+			for _, cn := range in.Cons {
+				hit := -1
+				for _, v := range cn.P.Support() {
+					ti, ok := varTrit[v]
+					if !ok || (hit >= 0 && hit != ti) {
+						hit = -2
+						break
+					}
+					hit = ti
+				}
+				if hit < 0 || cn.Want {
+					note("Decode n=%d rem=%d: a constraint is not a rejection test of a single trit: %s", n, rem, short(cn.P.Format(in.Name), 120))
+					continue
+				}
+				if _, ok := accept[hit]; !ok {
+					accept[hit] = bitdom.One()
+				}
+				accept[hit] = bitdom.And(accept[hit], bitdom.Not(cn.P))
+			}
+			for i, acc := range accept {
+				t := src.A.Elems[i].(*bitdom.BV)
+				hi := bitdom.Zero()
+				for k := 1; k < 8; k++ {
+					hi = bitdom.Or(hi, t.Bits[k])
+				}
+				if bitdom.Equal(acc, bitdom.Not(hi)) {
+					matched[i] = true
 				} else {
-					matched[hit] = true
+					note("Decode n=%d rem=%d: trit %d is accepted under %s, not exactly for the values 0 and 1", n, rem, i, short(acc.Format(in.Name), 120))
 				}
 			}
 			for i := 0; i < 8*n; i++ {
@@ -371,7 +395,9 @@ func c14B1t8(c *Ctx) {
 		}
 		if matches("load(global<repo/pkg/encoding/b1t8.ErrInvalidLength>)", db.Of(e.Results[1], e.Instr)) {
 			for _, l := range rangeLoops(db) {
-				if mustPass(dec, e.Instr.Block(), []ana.Edge{{From: l.Header, To: l.Exit}}) && forAll(db, l, "bin<<=>(conv<*>(load(iaddr(_, bin<+>(ind<+1>(-1), 1)))), 1)") {
+				if mustPass(dec, e.Instr.Block(), []ana.Edge{{From: l.Header, To: l.Exit}}) && (forAll(db, l, "bin<<=>(conv<*>(load(iaddr(_, bin<+>(ind<+1>(-1), 1)))), 1)") ||
+					// the signed spelling: 0 <= t and t <= 1 as two tests
+					forAll(db, l, "bin<<=>(load(iaddr(_, ind<+1>(0))), 1)") && forAll(db, l, "bin<>=>(load(iaddr(_, ind<+1>(0))), 0)")) {
 					okOrder = true
 				}
 			}
